@@ -19,6 +19,7 @@ CONSTANTS
   StaleClose = FALSE
   NoWatcher = FALSE
   InitBeforeCheck = FALSE
+  EarlyUnlock = FALSE
 VIEW TView
 INVARIANT TraceInv
 CONSTRAINT HW
